@@ -29,7 +29,7 @@ import traceback
 
 ROOT = os.path.dirname(os.path.dirname(os.path.abspath(__file__)))
 KF_PATH = os.path.join(ROOT, "known_findings.json")
-EVID_DIR = os.path.join(ROOT, "evidence")
+EVID_DIR = os.environ.get("VERIF_EVIDENCE_DIR") or os.path.join(ROOT, "evidence")      # (the override is used only when seeded changes are evaluated)
 REPLAY_DIR = os.path.join(ROOT, "replays")
 SCHEMA = "/root/.vp/EVIDENCE.schema.json"
 
